@@ -43,6 +43,11 @@ func Scenarios(prop string) []gx.Sc {
 			{Name: "cons?n=2&cuts=1&fmts=5&np=2&slow=1&buf=0&faults=" + faults + ",out-of-range&gates=" + gates + icpt, Q: 2, T: 3},
 			{Name: "cons?n=3&cuts=3&fmts=5&nb=2&move=1&app=1&buf=4&faults=" + faults + "&gates=" + gates + icpt, Q: 2, T: 3},
 			{Name: "cons?n=3&cuts=2&fmts=0&ver=0.8.2.0&slow=1&buf=0&fsz=40&faults=" + faults + "&gates=" + gates + icpt, Q: 2, T: 3},
+			// one batch per fetch: after the slow-reader path (two expiries while one message is blocked) further
+			// non-empty responses follow
+			{Name: "cons?n=3&cuts=3&fmts=5&bpf=1&slow=1&buf=0&faults=" + faults + "&gates=" + gates + icpt, Q: 3, T: 4},
+			// two slow readers on one broker worker; the worker's hand-over of new subscriptions is a decision point too
+			{Name: "cons?n=2&cuts=1&fmts=5&np=2&slow=1&buf=0&faults=drop&gates=" + gates + ",bc.round" + icpt, Q: 3, T: 4},
 			// two partitions share a broker worker, one of them moves away and its re-dispatch can fail (metadata
 			// says "no leader" for a while): the sibling must keep being served
 			{Name: "cons?n=3&cuts=3&fmts=5&np=2&nb=2&move=1&app=3&buf=1&mfaults=leader-unavailable&faults=notleader,drop&gates=" + gates + icpt, Q: 2, T: 3},
@@ -57,6 +62,7 @@ func Scenarios(prop string) []gx.Sc {
 			{Name: "cons?n=3&cuts=2&fmts=5&slow=1&buf=0&closeany=1&faults=" + faults + "&gates=" + gates, Q: 2, T: 3},
 			{Name: "cons?n=2&cuts=1&fmts=5&np=2&slow=1&buf=1&closeany=1&faults=" + faults + ",out-of-range&gates=" + gates, Q: 2, T: 3},
 			{Name: "cons?n=2&cuts=1&fmts=5&nb=2&move=1&closeany=1&faults=" + faults + "&gates=" + gates, Q: 2, T: 3},
+			{Name: "cons?n=2&cuts=1&fmts=5&np=2&slow=1&buf=0&closeany=1&faults=drop&gates=" + gates + ",bc.round", Q: 3, T: 4},
 			{Name: "cons?n=3&cuts=3&fmts=5&np=2&nb=2&move=1&app=3&buf=1&closeany=1&mfaults=leader-unavailable&faults=notleader,drop&gates=" + gates, Q: 2, T: 3},
 		}
 	}
